@@ -181,3 +181,43 @@ func writeSgn0(repoRoot, srcRoot, verifRoot string, check bool) int {
 	}
 	return stale
 }
+
+func ecdsaRecoverPkgs(srcRoot string) []string {
+	var out []string
+	for _, p := range globPkgs(srcRoot, "ecc/*/ecdsa") {
+		b, err := os.ReadFile(filepath.Join(srcRoot, strings.TrimPrefix(p, "./"), "ecdsa.go"))
+		if err == nil && strings.Contains(string(b), "\nfunc recoverP(") {
+			out = append(out, p)
+		}
+	}
+	return out
+}
+
+// ---------------- EdDSA ----------------
+
+func eddsaPkgs(srcRoot string) []string {
+	return globPkgs(srcRoot, "ecc/*/twistededwards/eddsa", "ecc/*/bandersnatch/eddsa")
+}
+
+// writeEddsa: RMASK = 2^(8*fr.Bytes - 1), the value of the sign bit that the point encoding stores in the most
+// significant bit of the last byte (from the pinned modulus of the curve's scalar field).
+func writeEddsa(repoRoot, srcRoot, verifRoot string, pinned map[string]string, check bool) int {
+	b, err := os.ReadFile(filepath.Join(verifRoot, "contracts", "sig", "eddsa.go.tmpl"))
+	if err != nil {
+		return 0
+	}
+	stale := 0
+	for _, p := range eddsaPkgs(srcRoot) {
+		rel := strings.TrimPrefix(p, "./")
+		curve := strings.Split(rel, "/")[1]
+		q, ok := new(big.Int).SetString(pinned["ecc/"+curve+"/fr"], 10)
+		if !ok {
+			continue
+		}
+		nbytes := (q.BitLen() + 7) / 8
+		mask := new(big.Int).Lsh(big.NewInt(1), uint(8*nbytes-1))
+		s := strings.ReplaceAll(string(b), "RMASK", mask.String())
+		stale += installText(filepath.Join(repoRoot, rel, "zz_verif_contracts_eddsa.go"), s, check)
+	}
+	return stale
+}
